@@ -285,12 +285,61 @@ def shard(job) -> dict:
     return acc.out()
 
 
+def optimised_process() -> list[dict]:
+    """Every mutant of the small base streams once more in an interpreter started with
+    PYTHONOPTIMIZE=1 (python -O):
+    rejecting a stream must not hinge on `assert` statements, which that mode removes."""
+    import json  # noqa: PLC0415
+    import os  # noqa: PLC0415
+    import subprocess  # noqa: PLC0415
+    import sys  # noqa: PLC0415
+
+    from mc import env  # noqa: PLC0415
+
+    envp = dict(os.environ)
+    envp["PYTHONOPTIMIZE"] = "1"
+    envp["VERIF_C16_OPT"] = "1"
+    r = subprocess.run([sys.executable, "-B", "-W", "ignore", "-m", "mc.checks.c16"],
+                       capture_output=True, text=True, env=envp, cwd=env.VERIF, check=False)
+    if r.returncode != 0:
+        raise HarnessError(f"optimised subprocess failed: {r.stderr[-800:]}")
+    out = json.loads(r.stdout.strip().splitlines()[-1])
+    if out["optimize"] < 1:
+        raise HarnessError("the subprocess did not run in optimised mode")
+    return out["results"]
+
+
+def header_mutants_in_this_process() -> dict:
+    import sys  # noqa: PLC0415
+
+    results = []
+    n = 0
+    for base in bases("full"):
+        if base.get("big"):
+            continue
+        for pos, (_, _, row) in enumerate(flat_rows(base)):
+            for label, frames in mutants_at(base, pos):
+                r = judge_mutant(base, frames, label)
+                if r is None:
+                    continue
+                n += 1
+                for kind, msg in r:
+                    results.append({"base": base["name"], "pos": pos, "label": label,
+                                    "kind": kind, "msg": msg})
+    return {"optimize": sys.flags.optimize, "counted": n, "results": results}
+
+
 def run(ctx) -> None:
     DR.ensure_rdflib_plugin()
     size = "full"  # the whole space costs about a second: both tiers run all of it
     bs = bases(size)
     merged = pool.merge(pool.pmap(shard, [(size, i) for i in range(len(bs))]))
     ctx.add(merged)
+    for v in optimised_process():
+        ctx.violation({"class": v["label"], "fail": v["kind"].split("-")[0], "mode": "python -O"},
+                      f"under python -O (PYTHONOPTIMIZE=1): {v['base']} row {v['pos']}: {v['msg']}",
+                      {"size": size, "base": v["base"], "pos": v["pos"], "label": v["label"],
+                       "optimize": True})
     classes = {k[6:]: v for k, v in merged["counters"].items() if k.startswith("class:")}
     if len(classes) < 15:
         raise HarnessError(f"only {len(classes)} violation classes produced counted mutants")
@@ -308,12 +357,16 @@ def run(ctx) -> None:
             "reference beyond size, unfilled slot, datatype 0 / with disabled table, repeat marker "
             "without previous / inside quoted triple, options missing, forbidden row kind, triple "
             "outside a graph, unsupported version / physical type); a mutant counts only if jspec "
-            "rejects it; 6 parsers each; non-trivial = counted mutant"
+            "rejects it; 6 parsers each; all of it once more in a python -O process; "
+            "non-trivial = counted mutant"
         ),
     )
 
 
 def replay(case: dict) -> list:
+    if case.get("optimize"):
+        return [v["msg"] for v in optimised_process()
+                if (v["base"], v["pos"], v["label"]) == (case["base"], case["pos"], case["label"])]
     DR.ensure_rdflib_plugin()
     base = next(b for b in bases(case["size"]) if b["name"] == case["base"])
     for label, frames in mutants_at(base, case["pos"]):
@@ -321,3 +374,16 @@ def replay(case: dict) -> list:
             r = judge_mutant(base, frames, label)
             return [m for _, m in (r or [])]
     return []
+
+
+if __name__ == "__main__":
+    import json as _json
+    import os as _os
+    import sys as _sys
+
+    if _os.environ.get("VERIF_C16_OPT"):
+        from mc import env as _env
+
+        _env.pin()
+        DR.ensure_rdflib_plugin()
+        print(_json.dumps(header_mutants_in_this_process()))
